@@ -47,6 +47,8 @@ class Run:
 
     def __init__(self, pid, tier, seed):
         self.pid, self.tier, self.seed = pid, tier, seed
+        self.req_tier = tier       # tier asked for; `tier` becomes "deep" while an escalated search runs
+        self.escalated = False
         self.t0 = time.time()
         self.violations = []  # (signature, replay_path, found_input: bool, text)
         self.known = []
@@ -60,7 +62,19 @@ class Run:
         os.makedirs(self.replay_dir, exist_ok=True)
 
     def oblige(self, name, ok, detail=""):
+        # the same obligation checked again (escalated second pass): keep one entry, broken if it ever broke
+        for i, o in enumerate(self.obligations):
+            if o[0] == name:
+                if o[1] and not ok:
+                    self.obligations[i] = (name, False, detail)
+                return
         self.obligations.append((name, bool(ok), detail))
+
+    def broken(self):
+        return [o for o in self.obligations if not o[1]]
+
+    def found_input(self):
+        return any(v[2] for v in self.violations)
 
     def log(self, *a):
         print("[%s %5.1fs]" % (self.pid, time.time() - self.t0), *a, flush=True)
@@ -606,7 +620,13 @@ def load_known():
     return {"known": [], "fixed": []}
 
 
+ESCALATE = "escalate"
+
+
 def finish(run, level_note_gaps=()):
+    if run.req_tier == "quick" and not run.escalated and run.broken() and not run.found_input():
+        # a proof obligation / the correspondence broke and the quick search has no failing input: search deeper
+        return ESCALATE
     known = load_known()
     remaining = []
     for sig, path, found, text in run.violations:
@@ -643,7 +663,8 @@ def finish(run, level_note_gaps=()):
                 "a resize, or a contended step; distinct = distinct op-sequence text (sha1)",
         "partial_gaps": list(level_note_gaps),
     })
-    ev = {"property_id": run.pid, "tier": run.tier, "seed": run.seed, "level": "proof", "coverage": cov,
+    cov["escalated_search"] = run.escalated
+    ev = {"property_id": run.pid, "tier": run.req_tier, "seed": run.seed, "level": "proof", "coverage": cov,
           "assumptions": run.assumptions, "wall_s": round(time.time() - run.t0, 2), "violations": len(remaining)}
     os.makedirs(os.path.join(VERIF, "evidence"), exist_ok=True)
     with open(os.path.join(VERIF, "evidence", run.pid + ".json"), "w") as f:
@@ -683,4 +704,10 @@ def main(argv):
     run = Run(pid, tier, seed)
     if replay:
         return props.replay(run, replay)
-    return props.PROPS[pid](run)
+    rc = props.PROPS[pid](run)
+    if rc == ESCALATE:
+        run.escalated = True
+        run.tier = "deep"
+        print("[%s] %d obligation(s) broken, no failing input yet: escalated search" % (pid, len(run.broken())), flush=True)
+        rc = props.PROPS[pid](run)
+    return rc
